@@ -151,6 +151,47 @@ def recheck(args):
             json.dump(meta, fout, indent=1)
 
 
+def benign(args):
+    """A behaviour-preserving change: every named check must stay silent."""
+    cand = os.path.abspath(args.candidate)
+    patch = os.path.join(cand, 'patch.diff')
+    meta = dict(benign_id=args.benign_id, source=cand, checks={})
+    base, wt, rc, out = scratch_tree(patch)
+    try:
+        if rc:
+            print('patch does not apply:', out)
+            return 1
+        rc, out = sh(f'{PY} -m pytest -q -p no:cacheprovider 2>&1 | tail -3',
+                     cwd=wt)
+        meta['suite_with_change'] = out.strip().splitlines()[-1]
+        if '111 passed' not in out:
+            print('suite does not pass:', meta['suite_with_change'])
+            return 1
+        alarms = 0
+        for prop in args.props:
+            rc, lines = run_check(prop, wt, args.tier)
+            meta['checks'][prop] = {'tier': args.tier, 'exit': rc,
+                                    'output': lines[:6]}
+            flag = '' if rc == 0 else '   <-- ALARM'
+            alarms += rc != 0
+            print(f'{args.benign_id} {prop} ({args.tier}) exit {rc}{flag}')
+            if rc:
+                for l in lines[:6]:
+                    print('    ', l[:300])
+        meta['silent'] = alarms == 0
+    finally:
+        drop_tree(base, wt)
+    dest = os.path.join(HERE, 'benign', args.benign_id)
+    os.makedirs(dest, exist_ok=True)
+    for name in ('patch.diff', 'notes.md'):
+        src = os.path.join(cand, name)
+        if os.path.exists(src):
+            shutil.copy(src, os.path.join(dest, name))
+    with open(os.path.join(dest, 'meta.json'), 'w') as fout:
+        json.dump(meta, fout, indent=1)
+    return 0
+
+
 def main():
     ap = argparse.ArgumentParser()
     sub = ap.add_subparsers(dest='cmd', required=True)
@@ -163,8 +204,14 @@ def main():
     r.add_argument('seed_ids', nargs='*')
     r.add_argument('--tier', default='quick')
     r.add_argument('--all-checks', action='store_true')
+    b = sub.add_parser('benign')
+    b.add_argument('candidate')
+    b.add_argument('benign_id')
+    b.add_argument('props', nargs='+')
+    b.add_argument('--tier', default='quick')
     args = ap.parse_args()
-    sys.exit(confirm(args) if args.cmd == 'confirm' else recheck(args))
+    sys.exit({'confirm': confirm, 'recheck': recheck,
+              'benign': benign}[args.cmd](args))
 
 
 if __name__ == '__main__':
